@@ -61,6 +61,7 @@ class Interp:
         self.prints = 0
         self.spec_uses = set()
         self.engine_opts = {}
+        self.skolems = {}  # iteration skolem functions (name -> description), see core.Ctx.sk_install
         from . import intrinsics
         self.intrinsics = intrinsics.INTRINSICS
         self.ctx = core.Ctx(core.Explorer(self), [])
